@@ -43,7 +43,7 @@ checks["C12"] = dict(
 checks["C05"] = dict(
    engine="sim_io",
    technique="deterministic simulation with fault injection: seeded at-rest damage (bit flips, torn/zeroed/garbage/duplicated/moved sectors, stale tails, digit substitutions) plus transport faults through SimReader into every decoding/detection entry point, post-decode workload under panic/allocation/hang monitors in child processes",
-   level=("fault_enumeration","For documents that were well-formed when written (fixtures, synthetic regular/index/Hermes maps, scripts with sourceMappingURL references) and then damaged at rest by 0..3 seeded faults and/or in flight (chunking, EINTR, one hard error, drop/dup/swap/flip, early EOF), every decoding and detection entry point (slice, reader, data URL, reference discovery) must return without panic, arithmetic overflow (overflow-checks on), allocation out of proportion (counting allocator: 4 MiB + 256 x input, attributed to the library call in flight when the limit is crossed; amplification documents pair one long string with thousands of references) or endless reader polling (deterministic read budget; wall-clock backstop per run confirmed by a solitary re-run), and every map that comes back must survive the seeded post-decode workload (all accessors, lookups, formatters, function-name resolution, rewrite under the in-memory options, flatten, serialisation below the 100000-line bound, and the serialised form must decode again). Runs execute in child processes, each case on a 2 MiB thread, so that aborts and stack overflows are attributed to the announced run. A second stage repeats the search in another build configuration (library at opt-level 0, debug assertions on) with its own run domain and a larger share of large documents. A third stage is a watchdog for time in proportion to the input: CPU time of every call on nine document shapes at size n and 4n (reported above 0.5 s and 12x). Claimed for the fault-reachable part of the statement only; adversarially constructed inputs are a fuzzing target, not a fault model (DESIGN.md §4.4).","§4.4"),
+   level=("fault_enumeration","For documents that were well-formed when written (fixtures, synthetic regular/index/Hermes maps, scripts with sourceMappingURL references) and then damaged at rest by 0..3 seeded faults and/or in flight (chunking, EINTR, one hard error, drop/dup/swap/flip, early EOF), every decoding and detection entry point (slice, reader, data URL, reference discovery) must return without panic, arithmetic overflow (overflow-checks on), allocation out of proportion (counting allocator: 4 MiB + 256 x input, attributed to the library call in flight when the limit is crossed; amplification documents pair one long string with thousands of references) or endless reader polling (deterministic read budget; wall-clock backstop per run confirmed by a solitary re-run), and every map that comes back must survive the seeded post-decode workload (all accessors, lookups, formatters, function-name resolution, rewrite under the in-memory options, flatten, serialisation below the 100000-line bound, and the serialised form must decode again). Runs execute in child processes, each case on a 2 MiB thread, so that aborts and stack overflows are attributed to the announced run. A second stage repeats the search in another build configuration (library at opt-level 0, debug assertions on) with its own run domain and a larger share of large documents. A third stage is a watchdog for time in proportion to the input: CPU time of every call on thirteen document shapes at size n and 4n (reported above 0.5 s and 12x). Claimed for the fault-reachable part of the statement only; adversarially constructed inputs are a fuzzing target, not a fault model (DESIGN.md §4.4).","§4.4"),
    note="Trusts the monitors (panic hook + catch_unwind, counting GlobalAlloc, SimReader budgets) and the parent/child attribution protocol. Says nothing about what a damaged document decodes to.",
  )
 order = ["C05","C12","C15","C16"]
